@@ -92,18 +92,19 @@ Proof. vm_compute. reflexivity. Qed.
 
 (* a reachable state and a step from it: at t = 1 both pins toggle (pin 0 rising, pin 1 falling) and the
    registers of clock 0 and clock 1 are advanced in the same instant *)
-Example ex_reach : exists s d s' d' lg,
-  reach ex_cfg ex_comb 18 = Some (s, d) /\ step ex_cfg ex_comb (s, d) = Some (s', d', lg) /\
-  lg_time lg = 1%Q /\ lg_clk lg = [(0, true, 6%N); (1, false, 14%N)] /\
-  map r_out (d_regs d) = [[B1; B1; B1]; [B0; B0; B0]; [B0; B0; B0]] /\
-  lg_regs lg = [[B0; B0; B0]; [B0; B0; B0]; [B0; B0; B0]].
-Proof.
-  destruct (reach ex_cfg ex_comb 18) as [[s d]|] eqn:E; [|vm_compute in E; discriminate].
-  destruct (step ex_cfg ex_comb (s, d)) as [[[s' d'] lg]|] eqn:E2.
-  2:{ revert E2. vm_compute in E. inversion E; subst. vm_compute. discriminate. }
-  exists s, d, s', d', lg. split; [reflexivity|]. split; [reflexivity|].
-  vm_compute in E. inversion E; subst. vm_compute in E2. inversion E2; subst. vm_compute. auto.
-Qed.
+Example ex_reach :
+  match reach ex_cfg ex_comb 17 with
+  | Some (s, d) =>
+    match step ex_cfg ex_comb (s, d) with
+    | Some (s', d', lg) =>
+      (lg_time lg, lg_clk lg, map r_out (d_regs d), lg_regs lg) =
+      (1%Q, [(0, true, 6%N); (1, false, 14%N)],
+       [[B1; B1; B1]; [B0; B0; B0]; [B0; B0; B0]], [[B0; B0; B0]; [B0; B0; B0]; [B0; B0; B0]])
+    | None => False
+    end
+  | None => False
+  end.
+Proof. vm_compute. reflexivity. Qed.
 
 (* the injected asynchronous reset at 5/4 (no clock edge there): register 1 jumps to its reset value at once *)
 Example ex_async :
@@ -116,3 +117,35 @@ Proof. vm_compute. reflexivity. Qed.
 Example ex_same_key :
   same_key (cvc_ev 1%Q (0, true)) (cvc_ev 1%Q (1, false)) /\ cvc_ev 1%Q (0, true) <> cvc_ev 1%Q (1, false).
 Proof. split; [repeat split; try reflexivity; discriminate | discriminate]. Qed.
+
+(* DESIGN.md Q7, as a refutation of the property's literal wording ("a RISING or FALLING clock of frequency f
+   activates its registers exactly at the positive multiples of 1/f"): clock 2 of ex_cfg (FALLING, 3 Hz, derived from
+   the RISING clock 0 with the same name, frequency and phase, hence on clock 0's pin) is advanced at t = 1/6. *)
+Lemma ex_q7_refutes :
+  exists ie, In ie (sched_run 3 (sched_init ex_cfg)) /\ ie_time ie = (1 # 6)%Q /\
+             domain_advanced ex_cfg ie 2 = true /\
+             ~ exists j : N, (ie_time ie == Q_of_N j * (1 / absfreq (cfg_clocks ex_cfg) 2))%Q.
+Proof.
+  assert (E : exists ie, nth_error (sched_run 3 (sched_init ex_cfg)) 2 = Some ie /\ ie_time ie = (1 # 6)%Q /\
+                         domain_advanced ex_cfg ie 2 = true).
+  { vm_compute. eexists. split; [reflexivity|]. split; reflexivity. }
+  destruct E as (ie & Hn & Ht & Hd). exists ie. split; [eapply nth_error_In; exact Hn|].
+  split; [exact Ht|]. split; [exact Hd|].
+  intros [j Hj]. rewrite Ht in Hj.
+  assert (Ef : absfreq (cfg_clocks ex_cfg) 2 = 3%Q) by (vm_compute; reflexivity).
+  rewrite Ef in Hj. unfold Qeq, Q_of_N, Qmult, Qdiv, Qinv in Hj. simpl in Hj. lia.
+Qed.
+
+Lemma ex_refuted_full :
+  exists cfg c n ie,
+    times_ok cfg /\ clocks_wf (cfg_clocks cfg) /\ relevant cfg c = true /\ trig_of cfg c <> RISING_AND_FALLING /\
+    In ie (sched_run n (sched_init cfg)) /\ domain_advanced cfg ie c = true /\
+    ~ exists j : N, (ie_time ie == Q_of_N j * (1 / absfreq (cfg_clocks cfg) c))%Q.
+Proof.
+  destruct ex_q7_refutes as (ie & Hin & _ & Hd & Hn).
+  exists ex_cfg, 2, 3, ie. repeat split; auto using ex_times_ok, ex_wf.
+  - apply ex_times_ok.
+  - apply ex_times_ok.
+  - apply ex_times_ok.
+  - vm_compute. discriminate.
+Qed.
